@@ -1,7 +1,7 @@
 (* Properties/C16.v — Log blooms have no false negatives and log queries are exact.
    Only statements closed by `exact`, with Print Assumptions under each.
    H is the hash (crypto.Keccak256 in the code): every theorem holds for every H. *)
-From AQ Require Import Lib.Bytes Lib.Keccak Generated.GenParamsBloom Bloom.BloomModel Bloom.FilterModel Bloom.BloomProofs Bloom.FilterProofs Bloom.ByteModel Bloom.ByteProofs Bloom.IndexerModel Bloom.IndexerProofs.
+From AQ Require Import Lib.Bytes Lib.Keccak Generated.GenParamsBloom Bloom.BloomModel Bloom.FilterModel Bloom.BloomProofs Bloom.FilterProofs Bloom.ByteModel Bloom.ByteProofs Bloom.IndexerModel Bloom.IndexerProofs Bloom.BitutilModel Bloom.BitutilProofs Bloom.EndToEndProofs.
 Local Open Scope N_scope.
 
 (* every address and every topic of every log of the receipts tests positive in
@@ -287,6 +287,89 @@ Example C16_indexer_example :
    w_queue w = [] /\ ix_stored (w_ix w) = 1 /\ shead (w_ix w) 0 = 108 /\
    index_of_world 8 w 1 0 = [false; false; true; true; false; true; true; true]).
 Proof. split; [exact ex_ops_valid|vm_compute; repeat split; reflexivity]. Qed.
+
+(* common/bitutil (how rows are stored): for EVERY byte string d, DecompressBytes(CompressBytes(d), len d) = d,
+   and the stored form is never longer than d *)
+Theorem C16_compress_roundtrip : forall d : bytes, decompress (compress d) (length d) = DOk d.
+Proof. exact compress_roundtrip. Qed.
+Print Assumptions C16_compress_roundtrip.
+
+Theorem C16_compress_not_longer : forall d : bytes, (length (compress d) <= length d)%nat.
+Proof. exact compress_not_longer. Qed.
+Print Assumptions C16_compress_not_longer.
+
+(* the strictness of CompressBytes' guard is needed: there is data whose encoding is exactly as long as the
+   data and different from it, and DecompressBytes returns such an input unchanged *)
+Theorem C16_nonstrict_guard_would_break :
+  exists d : bytes, let out := encode (length d) d in
+    length out = length d /\ out <> d /\ decompress out (length d) = DOk out.
+Proof. exact nonstrict_guard_breaks. Qed.
+Print Assumptions C16_nonstrict_guard_would_break.
+
+(* composition with the index theorems: a row written by Commit (CompressBytes of the packed row) and read
+   by the bloom handlers (DecompressBytes(_, size/8)) is the packed row, whose bit k is bit k of the row the
+   indexer theorems speak about *)
+Theorem C16_stored_row_reads_back :
+  forall (size row : N), size mod 8 = 0 ->
+  let v := pack (row_bits size row) in
+  decompress (compress v) (N.to_nat (size / 8)) = DOk v /\
+  forall k, k < size -> bvec_bit v k = N.testbit row k.
+Proof. exact stored_row_reads_back. Qed.
+Print Assumptions C16_stored_row_reads_back.
+
+(* non-vacuity: a sparse 8-byte row is stored in 3 bytes and comes back; a dense one is stored raw *)
+Example C16_compress_example :
+  compress [x00; x00; x20; x00; x00; x00; x00; x01] = [x21; x20; x01] /\
+  decompress [x21; x20; x01] 8 = DOk [x00; x00; x20; x00; x00; x00; x00; x01] /\
+  compress [x01; x02; x03; x04; x05; x06; x07; x08] = [x01; x02; x03; x04; x05; x06; x07; x08] /\
+  decompress [x21; x20] 8 = DErr ErrMissingData.
+Proof. vm_compute. repeat split. Qed.
+
+(* END TO END.  The premise `b_bloom b = create_bloom H (b_receipts b)` is what block validation enforces:
+   C01_accept_iff_commitments (Properties/C01.v) gives, for every imported block,
+   h_bloom header = receipts_bloom H receipts = create_bloom H (map r_logs receipts) — the same create_bloom.
+   A log of a canonical validated block is returned by the query for EVERY filter that matches it and every
+   range containing the block (in_range: begin <= n <= end with -1 = head), whatever part of the chain is indexed. *)
+Theorem C16_validated_log_returned :
+  forall (H : bytes -> bytes) (addrs : list bytes) (tops : list (list bytes))
+         (c : chain) (idx : index) (size sections : N) (begin end_ : Z) (n : N) (blk : block) (l : log),
+  0 < size -> sections * size <= lenN c -> (Z.of_N (lenN c) < two63)%Z ->
+  (-1 <= begin < two63)%Z -> (-1 <= end_ < two63)%Z ->
+  (forall bit s k, s < sections -> k < size -> vec_bit (idx bit s) k = N.testbit (bloom_at c (s * size + k)) bit) ->
+  (forall b, In b c -> b_bloom b = create_bloom H (b_receipts b)) ->
+  nthN c n = Some blk -> In l (concat (b_receipts blk)) -> log_matches addrs tops l = true ->
+  in_range c begin end_ n ->
+  In l (filter_query H addrs tops c idx size sections begin end_).
+Proof. exact validated_log_returned. Qed.
+Print Assumptions C16_validated_log_returned.
+
+(* ... and through the index a ChainIndexer built over any history of reorgs, once notified *)
+Theorem C16_validated_log_returned_indexed :
+  forall (H : bytes -> bytes) (addrs : list bytes) (tops : list (list bytes))
+         (commit : N -> list N -> gres (list N)) (size confirms : N) (c0 : hchain) (ops : list op)
+         (begin end_ : Z) (n : N) (blk : block) (l : log),
+  0 < size ->
+  (forall blooms rows, commit size blooms = GOk rows -> lenN blooms = size -> rows_transposed size rows blooms) ->
+  let w0 := mkW c0 [] ix_init in
+  ops_valid commit size confirms w0 ops ->
+  let w := run_ops commit size confirms w0 ops in
+  let c := map hb_block (w_chain w) in
+  w_queue w = [] ->
+  (Z.of_N (lenN c) < two63)%Z -> (-1 <= begin < two63)%Z -> (-1 <= end_ < two63)%Z ->
+  (forall b, In b c -> b_bloom b < 2 ^ 2048) ->
+  (forall b, In b c -> b_bloom b = create_bloom H (b_receipts b)) ->
+  nthN c n = Some blk -> In l (concat (b_receipts blk)) -> log_matches addrs tops l = true ->
+  in_range c begin end_ n ->
+  In l (filter_query H addrs tops c (index_of_world size w) size (ix_stored (w_ix w)) begin end_).
+Proof. exact validated_log_returned_indexed. Qed.
+Print Assumptions C16_validated_log_returned_indexed.
+
+(* non-vacuity on the 17-block Keccak chain below: block 12's log matches, lies in range 0..latest *)
+Example C16_validated_log_example :
+  let l := mkLog (repeat x00 19 ++ [x07]) [repeat x00 31 ++ [x02]; repeat x00 31 ++ [x02]] [x01] 120 in
+  log_matches [repeat x00 19 ++ [x07]] [[]; [repeat x00 31 ++ [x02]]] l = true /\
+  in_range (repeat (mkBlock 0 []) 17) 0 (-1) 12.
+Proof. vm_compute. repeat split; discriminate. Qed.
 
 (* non-vacuity: a 17-block chain (section size 8, two sections indexed) with Keccak-256 as H,
    header blooms = CreateBloom(receipts) by construction (ex_blk), logs in blocks 3, 12, 15 and 16; a query by address and
